@@ -404,13 +404,32 @@ Section Translation.
         mret (CProducer p)
     end.
 
-  (* terms/mod.rs: the two methods of `impl Compile for Term` *)
-  Fixpoint wc (t : fterm) (cont : cterm) {struct t} : M cstmt :=
-    let subst := fix go (l : list fterm) : M (list carg) :=
+  (* the three list traversals (compile_subst, the clause maps of case.rs and new.rs), with the
+     translation of the elements as parameters *)
+  Section Lists.
+    Variable cmpf : fterm -> cty -> M cterm.
+    Variable wcf : fterm -> cterm -> M cstmt.
+    Fixpoint subst_with (l : list fterm) : M (list carg) :=
       match l with
       | [] => mret []
-      | y :: r => dom a <- compile_arg y (cmp y); dom rest <- go r; mret (a :: rest)
-      end in
+      | y :: r => dom a <- compile_arg y (cmpf y); dom rest <- subst_with r; mret (a :: rest)
+      end.
+    Fixpoint clauses_with (cont : cterm) (l : list fclause) : M (list cclause) :=
+      match l with
+      | [] => mret []
+      | FClause _ x _ ctx body :: r =>
+          dom c <- compile_clause x ctx (wcf body) cont; dom rest <- clauses_with cont r; mret (c :: rest)
+      end.
+    Fixpoint coclauses_with (l : list fclause) : M (list cclause) :=
+      match l with
+      | [] => mret []
+      | FClause _ x _ ctx body :: r =>
+          dom c <- compile_coclause x ctx (fterm_type body) (wcf body); dom rest <- coclauses_with r; mret (c :: rest)
+      end.
+  End Lists.
+
+  (* terms/mod.rs: the two methods of `impl Compile for Term` *)
+  Fixpoint wc (t : fterm) (cont : cterm) {struct t} : M cstmt :=
     match t with
     | FVar v ty _ => wc_var v ty cont
     | FLit n => wc_lit n cont
@@ -419,36 +438,18 @@ Section Translation.
         wc_ifc s (cmp a CI64) (match b with Some b' => Some (cmp b' CI64) | None => None end) (wc t1) (wc t2) cont
     | FPrint nl a next _ => wc_print nl (cmp a CI64) (wc next) cont
     | FLet v vty bound body _ => wc_let v vty (cmp bound) (wc bound) (wc body) cont
-    | FCall f args ret => wc_call f (subst args) ret cont
-    | FCtor x args ty => wc_ctor x (subst args) ty cont
-    | FDtor scrut x _ args _ => wc_dtor (wc scrut) (fterm_type scrut) x (subst args) cont
+    | FCall f args ret => wc_call f (subst_with (fun y => cmp y) args) ret cont
+    | FCtor x args ty => wc_ctor x (subst_with (fun y => cmp y) args) ty cont
+    | FDtor scrut x _ args _ => wc_dtor (wc scrut) (fterm_type scrut) x (subst_with (fun y => cmp y) args) cont
     | FCase scrut _ cls _ =>
-        wc_case (wc scrut) (fterm_type scrut) (List.length cls)
-          (fun cont' =>
-             (fix go (l : list fclause) : M (list cclause) :=
-                match l with
-                | [] => mret []
-                | FClause _ x _ ctx body :: r =>
-                    dom c <- compile_clause x ctx (wc body) cont'; dom rest <- go r; mret (c :: rest)
-                end) cls) cont
-    | FNew cls ty =>
-        wc_new ((fix go (l : list fclause) : M (list cclause) :=
-                   match l with
-                   | [] => mret []
-                   | FClause _ x _ ctx body :: r =>
-                       dom c <- compile_coclause x ctx (fterm_type body) (wc body); dom rest <- go r; mret (c :: rest)
-                   end) cls) ty cont
+        wc_case (wc scrut) (fterm_type scrut) (List.length cls) (fun cont' => clauses_with (fun b => wc b) cont' cls) cont
+    | FNew cls ty => wc_new (coclauses_with (fun b => wc b) cls) ty cont
     | FLabel l t' ty => wc_label l (wc t') ty cont
     | FGoto l t' ty => wc_goto l (wc t') ty
     | FExit a ty => wc_exit (cmp a CI64) ty
     | FParen t' => wc t' cont
     end
   with cmp (t : fterm) (ty : cty) {struct t} : M cterm :=
-    let subst := fix go (l : list fterm) : M (list carg) :=
-      match l with
-      | [] => mret []
-      | y :: r => dom a <- compile_arg y (cmp y); dom rest <- go r; mret (a :: rest)
-      end in
     match t with
     | FVar v vty _ => cmp_var v vty
     | FLit n => cmp_lit n
@@ -458,26 +459,14 @@ Section Translation.
           (wc_ifc s (cmp a CI64) (match b with Some b' => Some (cmp b' CI64) | None => None end) (wc t1) (wc t2)) ty
     | FPrint nl a next _ => default_compile (wc_print nl (cmp a CI64) (wc next)) ty
     | FLet v vty bound body _ => default_compile (wc_let v vty (cmp bound) (wc bound) (wc body)) ty
-    | FCall f args ret => default_compile (wc_call f (subst args) ret) ty
-    | FCtor x args cty' => cmp_ctor x (subst args) cty'
-    | FDtor scrut x _ args _ => default_compile (wc_dtor (wc scrut) (fterm_type scrut) x (subst args)) ty
+    | FCall f args ret => default_compile (wc_call f (subst_with (fun y => cmp y) args) ret) ty
+    | FCtor x args cty' => cmp_ctor x (subst_with (fun y => cmp y) args) cty'
+    | FDtor scrut x _ args _ =>
+        default_compile (wc_dtor (wc scrut) (fterm_type scrut) x (subst_with (fun y => cmp y) args)) ty
     | FCase scrut _ cls _ =>
         default_compile
-          (wc_case (wc scrut) (fterm_type scrut) (List.length cls)
-             (fun cont' =>
-                (fix go (l : list fclause) : M (list cclause) :=
-                   match l with
-                   | [] => mret []
-                   | FClause _ x _ ctx body :: r =>
-                       dom c <- compile_clause x ctx (wc body) cont'; dom rest <- go r; mret (c :: rest)
-                   end) cls)) ty
-    | FNew cls nty =>
-        cmp_new ((fix go (l : list fclause) : M (list cclause) :=
-                    match l with
-                    | [] => mret []
-                    | FClause _ x _ ctx body :: r =>
-                        dom c <- compile_coclause x ctx (fterm_type body) (wc body); dom rest <- go r; mret (c :: rest)
-                    end) cls) nty
+          (wc_case (wc scrut) (fterm_type scrut) (List.length cls) (fun cont' => clauses_with (fun b => wc b) cont' cls)) ty
+    | FNew cls nty => cmp_new (coclauses_with (fun b => wc b) cls) nty
     | FLabel l t' lty => cmp_label l (wc t') lty
     | FGoto l t' gty => default_compile (fun _ => wc_goto l (wc t') gty) ty
     | FExit a ety => default_compile (fun _ => wc_exit (cmp a CI64) ety) ty
@@ -803,3 +792,28 @@ Fixpoint goto_type_mismatch (env : list (string * option fty)) (t : fterm) : boo
   end.
 Definition goto_type_mismatch_prog (p : fcprog) : bool :=
   existsb (fun d => goto_type_mismatch (env_of_ctx (fdctx d) []) (fdbody d)) (fcpdefs p).
+
+(* ---------- the capture witness (corpus/fun/capture1.sc as the type checker annotates it).
+   modelrun compares this value with the real CheckedProgram of that file on every run; the
+   theorem fun2core_capture_refuted is about this value. ---------- *)
+Definition ty_list_i64 : fty := FDecl "List" [FI64].
+Definition v_prd (x : string) (t : fty) : fterm := FVar x (Some t) (Some FPrd).
+
+Definition capture_witness : fcprog :=
+  mkfcprog
+    [mkfdata "List[i64]" []
+       [mkfctor "Nil" []; mkfctor "Cons" [mkfb "x" FPrd FI64; mkfb "xs" FPrd ty_list_i64]]]
+    []
+    [mkfdef "f" [mkfb "x" FPrd FI64; mkfb "l" FPrd ty_list_i64] FI64
+       (FLet "y" FI64
+          (FCase (v_prd "l" ty_list_i64) [FI64]
+             [FClause FData "Nil" [] [] (FLit 0);
+              FClause FData "Cons" ["x"; "xs"] [mkfb "x" FPrd FI64; mkfb "xs" FPrd ty_list_i64] (v_prd "x" FI64)]
+             (Some FI64))
+          (FOp (v_prd "y" FI64) FSum (v_prd "x" FI64))
+          (Some FI64));
+     mkfdef "main" [] FI64
+       (FPrint true
+          (FCall "f" [FLit 5; FCtor "Cons" [FLit 7; FCtor "Nil" [] (Some ty_list_i64)] (Some ty_list_i64)] (Some FI64))
+          (FLit 0) (Some FI64))].
+
